@@ -309,6 +309,7 @@ type stubService struct {
 	Name    string `toml:"name"`
 	Reply   string `toml:"reply"`
 	DelayMs int    `toml:"delay_ms"` // a service that starts reading a little late
+	PanicOn string `toml:"panic_on"` // the handler panics when it has read this text (the server recovers)
 	ch      pushers.Channel
 }
 
@@ -335,6 +336,9 @@ func (s *stubService) Handle(ctx context.Context, conn net.Conn) error {
 		}
 		n, err := conn.Read(b)
 		all = append(all, b[:n]...)
+		if s.PanicOn != "" && bytes.Contains(all, []byte(s.PanicOn)) {
+			panic("verif-stub: panic on demand")
+		}
 		stubs.mu.Lock()
 		rec.Hex = hex.EncodeToString(all)
 		stubs.mu.Unlock()
